@@ -183,9 +183,22 @@ def replay_case(arg):
                         x[q] = round(float(rng.uniform(0.3, 0.6)), 3)
                     if 'Log mean' in nm or 'Cov.' in nm or ' W' in nm:
                         x[q] = round(float(rng.uniform(-0.1, 0.2)), 3)
+                # what the simulated system of every individual receives: the protocol the solver ran with (C10 at the
+                # level of the controller) -- one solve per individual, in the order of the individuals
+                refsim.clear_events()
                 with warnings.catch_warnings():
                     warnings.simplefilter('error', RuntimeWarning)
-                    gv, ev = got(x.copy()), exp(x.copy())
+                    gv = got(x.copy())
+                runs = [e for e in refsim.EVENTS if e['e'] == 'Run']
+                who = [ids.index(label)] if mode == 'indiv' else list(range(len(ids)))
+                exp_regs = [sorted((2.0 * a / (0.25 * d if d else 0.01), 0.5 * t, (0.25 * d if d else 0.01), 0.0, 0)
+                                   for a, t, d in post['regimen'][k]) for k in who]
+                got_regs = [sorted(e['protocol']) for e in runs]
+                if got_regs != exp_regs:
+                    fail('AppliedRegimen', 'protocol_at_solve', dict(label=label, got=got_regs, expected=exp_regs))
+                with warnings.catch_warnings():
+                    warnings.simplefilter('error', RuntimeWarning)
+                    ev = exp(x.copy())
                     gs, gg = got.evaluateS1(x.copy())
                     es, eg = exp.evaluateS1(x.copy())
                 cnt['evaluations'] = cnt.get('evaluations', 0) + 4
